@@ -32,6 +32,10 @@ MANIFEST = {
 }
 
 
+# proof modules about the specification, checked by tlapm on every run (started by the driver next to leg A)
+TLAPS = [('FluxSolverProofs.tla', ['FluxSolverCore.tla'])]
+
+
 def leg_a(ctx):
     inp = os.path.join(ctx.work, "mc_inputs.ndjson")
     scs = rec_solver.mc_scenarios(ctx.sub_rng(2), ctx.n(600, 10000))
@@ -75,7 +79,6 @@ def run(ctx, pool):
     # (fluxes at their own composition, CPU-time guard), with the clauses on single evaluations not exercised
     res["coverage"]["iterations_observable"] = hist.get("Eval", 0) > 0
     res["trace_lookup"] = lambda v: tw.traces[v["record"]["t"]][:80]
-    core.attach_tlaps(ctx, res, [('FluxSolverProofs.tla', ['FluxSolverCore.tla'])])
     return res
 
 
